@@ -700,17 +700,20 @@ pub fn run(ctx: &mut Ctx) {
     ctx.assume("resolvers are not gated, so execution is sequential and the recorded trace is a well-nested word; concurrency of sibling fields is not part of this check");
     ctx.assume("__typename is answered without a resolver: resolve invocations for __typename are neither required nor forbidden and are left out of the count");
     ctx.assume("an unknown operation name may stop the request before or after validation; a missing required variable may stop it at validation or inside execute (where variable coercion happens is not fixed by the statement); then the number of resolve invocations is not constrained");
-    ctx.assume("response keys are unique within every selection set (TypedCfg.repeats = false): repeated keys are executed once per occurrence (open finding C04-F1), which makes the reference count undefined");
+    if ctx.open("C04-F1") {
+        ctx.assume("response keys are unique within every selection set (TypedCfg.repeats = false): repeated keys are executed once per occurrence (open finding C04-F1), which makes the reference count undefined");
+        ctx.excluded("C04-F1");
+    }
     ctx.assume("if the reference executor and the extension-free run disagree about the response (the subject of C01/C02), transparency and the grammar are still checked and only the resolve count is skipped (class reference-disagrees)");
     ctx.assume("the subscribe hook and execute_stream are out of scope (the statement lists request, prepare_request, parse_query, validation, execute, resolve)");
     if ctx.open("C04-F1") {
         ctx.excluded("C04-F1");
     }
     let mut tcfg = crate::c02::typed_cfg(ctx, "C01");
-    tcfg.repeats = false;
+    tcfg.repeats = !ctx.open("C04-F1");
     tcfg.ops = vec![OpKind::Query, OpKind::Query, OpKind::Mutation];
     let mut dcfg = crate::c02::typed_cfg(ctx, "C02");
-    dcfg.repeats = false;
+    dcfg.repeats = !ctx.open("C04-F1");
     dcfg.ops = vec![OpKind::Query, OpKind::Query, OpKind::Mutation];
 
     let zs = z_stack();
